@@ -18,9 +18,12 @@ Further streams: re-export chains, renames on USE, BLOCK constructs, type-bound 
 like procedures of the scope (specific / deferred / generic bindings, inheritance and overriding),
 dummy procedures declared by interface bodies, submodules (host association from the parent,
 separate module procedures, equal submodule names under different modules).  The model variants
-have six switches (see VARIANTS); all variants of a case go to the Lean driver in one request
+have seven switches (see VARIANTS); all variants of a case go to the Lean driver in one request
 (`c07.multi`).  Two traces of the implementation are inputs of the model: the order in which the
 derived types are correlated and the order of the project's list of submodules.
+
+Stream `access` (harness/c07_access.py): what a USE statement can see - module defaults, access attributes and
+statements, the constructor idiom, re-export - against the Lean model ScopeAccess and an oracle of its own.
 """
 from __future__ import annotations
 
@@ -30,18 +33,21 @@ from pathlib import Path
 
 from . import common
 from . import c07_gen as G
+from . import c07_access as A
 from .common import Driver, Report, lean_prove
 
 PROP = "C07"
-# alias, hostOverLocal, blockUse, sharedSpecifics, ancOverLocal, parentByName ; "000000" = repaired,
-# "111111" = as found.
+# alias, hostOverLocal, blockUse, sharedSpecifics, ancOverLocal, parentByName, dropPrivate ; "0000000" = repaired,
+# "1111111" = as found.
+#   dropPrivate = an extension does not inherit the PRIVATE type-bound procedures of its parent type
 #   blockUse = a USE statement inside a BLOCK construct is filed in the enclosing code unit
 #   sharedSpecifics = the copy of a generic binding an extension inherits shares the list of its
 #                     specifics with the parent type's generic binding
 #   ancOverLocal = the tables of the parent (ancestor module / parent submodule) overwrite the local
 #                  declarations of a submodule
 #   parentByName = the parent submodule is looked up by its name alone (whatever its ancestor module)
-VARIANTS = [a + b + c + d + e for a in ("00", "11", "10", "01") for b in "01" for c in "01" for d in "01" for e in "01"]
+VARIANTS = [a + b + c + d + e + f for a in ("00", "11", "10", "01") for b in "01" for c in "01" for d in "01" for e in "01"
+            for f in "01"]
 _VN = {"00": "repaired (copied host tables, local over host)", "11": "asIs (shared host tables, host over local)",
        "10": "shared host tables, local over host", "01": "copied host tables, host over local"}
 VARIANT_NAME = {v: _VN[v[:2]] + ("; USE inside a BLOCK is filed in the enclosing unit" if v[2] == "1"
@@ -51,7 +57,9 @@ VARIANT_NAME = {v: _VN[v[:2]] + ("; USE inside a BLOCK is filed in the enclosing
                 + ("; a submodule's local declarations are overwritten by its parent's" if v[4] == "1"
                    else "; a submodule's local declarations shadow its parent's")
                 + ("; parent submodule found by name alone" if v[5] == "1"
-                   else "; parent submodule found by ancestor module and name") for v in VARIANTS}
+                   else "; parent submodule found by ancestor module and name")
+                + ("; PRIVATE bindings of the parent type are not inherited" if v[6] == "1"
+                   else "; PRIVATE bindings are inherited") for v in VARIANTS}
 UNOBS = "unobserved"
 
 
@@ -410,11 +418,15 @@ def run(tier: str, seed: int, replay: str | None = None) -> int:
     n_dum = 300 if tier == "quick" else 3000
     n_sub = 300 if tier == "quick" else 3000
     cases = []
+    access_replay = []
     if replay:
         data = json.loads(Path(replay).read_text())
         for c in data.get("cases", []) + data.get("first_disagreements", []):
             if "project" in c and "files" in c:
-                cases.append((c["project"], c["files"]))
+                if c.get("stream") == "access":
+                    access_replay.append(c)
+                else:
+                    cases.append((c["project"], c["files"]))
     # the witnesses of the known findings are always replayed first
     kf = json.loads((common.VERIF / "known_findings" / f"{PROP}.json").read_text()).get("findings", [])
     for f in kf:  # open and fixed ones alike (a fixed witness is a regression case)
@@ -485,7 +497,9 @@ def run(tier: str, seed: int, replay: str | None = None) -> int:
         has_inherit = any(r["gslots"] for r in F.types) and any(r["ext"] is not None for r in F.types)
         has_sub = bool(F.subs)
         toks = F.tokens + ["|"] + F.type_tokens(F.type_order) + ["|"] + F.sub_tokens(F.sub_order)
-        cn = {v: v[:2] + (v[2] if has_block_use else "0") + (v[3] if has_inherit else "0") + (v[4:] if has_sub else "00")
+        has_priv = any(r["priv"] for r in F.types) and any(r["ext"] is not None for r in F.types)
+        cn = {v: v[:2] + (v[2] if has_block_use else "0") + (v[3] if has_inherit else "0") + (v[4:6] if has_sub else "00")
+              + (v[6] if has_priv else "0")
               for v in VARIANTS}
         vs = sorted(set(cn.values()))
         canon_of.append(cn)
@@ -509,7 +523,8 @@ def run(tier: str, seed: int, replay: str | None = None) -> int:
                   "block_local_name_referenced_outside_expect_other_entity": 0,
                   "block_used_name_referenced_outside": 0, "block_use_distinguishing_case": 0,
                   "shared_specifics_distinguishing_case": 0, "submodule_local_distinguishing_case": 0,
-                  "submodule_parent_distinguishing_case": 0, "submodules": 0, "submodules_of_submodules": 0,
+                  "submodule_parent_distinguishing_case": 0, "private_binding_distinguishing_case": 0,
+                  "private_bindings": 0, "generic_specific_is_inherited_private_binding": 0, "submodules": 0, "submodules_of_submodules": 0,
                   "submodule_name_under_two_modules": 0, "separate_module_procedures": 0,
                   "submodule_local_name_also_in_ancestor": 0, "submodule_local_name_also_in_ancestor_referenced": 0,
                   "binding_name_is_visible_procedure_name": 0, "deferred_binding_name_is_visible_procedure_name": 0,
@@ -544,14 +559,16 @@ def run(tier: str, seed: int, replay: str | None = None) -> int:
 
             if len({tuple(f) for n_, f in raw.items() if n_ != "spec"}) > 1:
                 reuse_hist["variants_distinguishing_case"] += 1
-            if _key("000000") != _key("001000"):
+            if _key("0000000") != _key("0010000"):
                 reuse_hist["block_use_distinguishing_case"] += 1
-            if _key("000000") != _key("000100"):
+            if _key("0000000") != _key("0001000"):
                 reuse_hist["shared_specifics_distinguishing_case"] += 1
-            if _key("000000") != _key("000010"):
+            if _key("0000000") != _key("0000100"):
                 reuse_hist["submodule_local_distinguishing_case"] += 1
-            if _key("000000") != _key("000001"):
+            if _key("0000000") != _key("0000010"):
                 reuse_hist["submodule_parent_distinguishing_case"] += 1
+            if _key("0000000") != _key("0000001"):
+                reuse_hist["private_binding_distinguishing_case"] += 1
             # Lean spec vs python oracle (both independent of the mechanism)
             for i, e in exp.items():
                 if F.slots[i].get("optional"):
@@ -635,6 +652,9 @@ def run(tier: str, seed: int, replay: str | None = None) -> int:
                     {"owner": "/".join(n for _, n in F.scopes[sl["scope"]]["path"]), "what": sl["what"], "name": sl["name"],
                      "ford": describe(F, obs.get(i)), "expected": "not Fortran" if exp[i] == G.SKIP else describe(F, exp[i])}
                     for i, sl in enumerate(F.slots) if obs.get(i, UNOBS) != UNOBS][:12]})
+    # stream `access`: use association sees exactly the PUBLIC identifiers of a module (c07_access.py)
+    import sys
+    acc_cov = A.run_stream(rep, ford, drv, sys.modules[__name__], random.Random(seed * 7919 + 13), tier, access_replay)
     drv.close()
     agreeing = [v for v in VARIANTS if mism[v] == 0]
     variant = agreeing[0] if agreeing else None
@@ -658,16 +678,19 @@ def run(tier: str, seed: int, replay: str | None = None) -> int:
         if undecided(4) and not replay:
             rep.tie_broken("correspondence reuse: no generated case decides whether the parent's tables overwrite "
                            "the local declarations of a submodule")
+        if undecided(6) and not replay:
+            rep.tie_broken("correspondence reuse: no generated case decides whether an extension inherits the PRIVATE "
+                           "bindings of its parent type")
         if undecided(5) and not replay:
             rep.tie_broken("correspondence reuse: no generated case decides whether the parent submodule is looked "
                            "up by its name alone")
         try:
             from translate import c07 as T
             tv = T.code_variant()
-            tv = None if tv is None else tv + T.block_variant() + T.generic_variant() + T.sub_variant()
+            tv = None if tv is None else tv + T.block_variant() + T.generic_variant() + T.sub_variant() + T.private_variant()
             if tv is not None and tv != variant and len(agreeing) == 1:
                 rep.tie_broken(f"the translator's witness projects show variant {tv} (translate/c07.py: probe_host / "
-                               f"probe_blocks / probe_generic / probe_sub), differential execution decides {variant}")
+                               f"probe_blocks / probe_generic / probe_sub / probe_private), differential execution decides {variant}")
         except Exception as e:  # translator failure is already reported by lean_prove
             pass
     # A failing slot belongs to a known defect class only if (1) the decidable class predicate on
@@ -678,7 +701,7 @@ def run(tier: str, seed: int, replay: str | None = None) -> int:
     for k, i, e, o, mv, (frames, where) in pending:
         cls = G.classify(flats[k], frames, where, i, o if not isinstance(o, tuple) else None, block_use=(vref[2] == "1"),
                          shared=(vref[3] == "1"), sub_local=(vref[4] == "1"), sub_parent=(vref[5] == "1"),
-                         alias=(vref[0] == "1"), host_over_local=(vref[1] == "1"))
+                         alias=(vref[0] == "1"), host_over_local=(vref[1] == "1"), drop_private=(vref[6] == "1"))
         if cls is not None and mv[vref] != o:
             cls = None
         if cls == "C07-shared-type-tables-leak" and vref[0] == "0":
@@ -692,8 +715,8 @@ def run(tier: str, seed: int, replay: str | None = None) -> int:
     for _, _, cls in fails:
         by_cls[str(cls)] = by_cls.get(str(cls), 0) + 1
     rep.coverage.update(
-        evaluations=hist["slots"] + hist["raise"],
-        distinct_nontrivial=len(distinct),
+        evaluations=hist["slots"] + hist["raise"] + acc_cov["histogram"]["slots"],
+        distinct_nontrivial=len(distinct) + acc_cov["distinct_nontrivial"],
         rule="one evaluation = one reference slot of one generated project compared (model vs FORD object, and oracle vs FORD object); "
              "non-trivial project = at least 3 reference slots, distinct by digest of the abstract encoding",
         samples=samples,
@@ -713,16 +736,20 @@ def run(tier: str, seed: int, replay: str | None = None) -> int:
         bound_procedure_cases=n_bnd,
         dummy_procedure_cases=n_dum,
         submodule_cases=n_sub,
+        access_stream=acc_cov,
     )
     rep.assumptions += [
         "implicit typing, IMPORT statements, common blocks and namelists are outside the abstract projects; submodules: depth <= 2, a module does not implement its own module procedure interfaces, every implementation is a subroutine",
         "BLOCK constructs: derived types without CONTAINS part, abstract interfaces, interface blocks, variables, USE statements "
         "and nested BLOCKs; FORD has no object for a BLOCK and records no reference inside it - such references are evaluated "
         "(oracle: the BLOCK's own frame first) only when the implementation under test does record them",
-        "all abstract modules have default accessibility PUBLIC (accessibility is C04/C06)",
+        "the abstract modules of the older streams have default accessibility PUBLIC; stream `access`: three or four modules "
+        "with either default, a bare PRIVATE stands in front of the declarations (a late one is C04-late-bare-private), a "
+        "PRIVATE statement names declared identifiers only (hiding a use-associated identifier is C06-private-imported-reexported), "
+        "every identifier is named by at most one access statement, PROTECTED and module variables as imported entities are outside",
         "interface bodies are not scopes of the abstract project (they have no declarations of their own); an interface body "
         "inside a generic interface and one that declares a dummy procedure are local procedure-like entities of the scope",
-        "type-bound procedures: all bindings are public and NOPASS; generic bindings have names that no other binding has "
+        "type-bound procedures: all bindings are NOPASS, PRIVATE ones only in the type chains of the bound-procedure stream (new binding names of module-level types); generic bindings are public and have names that no other binding has "
         "(a generic binding is never overridden or extended); the order in which FORD correlates the derived types is "
         "observed and handed to the model of the generic bindings",
         "the threaded tables of the model stand for the single dict object FORD shares between a unit and its nested units; "
@@ -807,10 +834,13 @@ def _periphery_stats(F, frames, exp, h):
             if visible_proc(r["scope"], b["name"].lower()):
                 h["deferred_binding_name_is_visible_procedure_name"] += 1
         h["generic_bindings"] += len(t.get("gbinds", []))
+        h["private_bindings"] += len(r["priv"])
         for i in r["gslots"]:
             n = F.slots[i]["name"].lower()
             if exp[i] not in (None, G.SKIP) and exp[i] != r["own"].get(n):
                 h["generic_specific_inherited"] += 1
+                if any(exp[i] in d["priv"] for d in F.types):
+                    h["generic_specific_is_inherited_private_binding"] += 1
             if visible_proc(r["scope"], n):
                 h["generic_specific_is_visible_procedure_name"] += 1
             for d in F.types:
